@@ -99,6 +99,13 @@ pub fn check_float<I: FloatInner>(vt: &'static Vt<I>, ctx: &Ctx) -> DeclReport {
         if vt.try_from.is_some() {
             attempts.push(Attempt { entry: "TryFrom".into(), payload: be(v) });
         }
+        if vt.de_value.is_some() && !v.is_finite_() {
+            for k in 0..crate::glue::DE_VALUE_KINDS {
+                let mut p = be(v);
+                p.push(k);
+                attempts.push(Attempt { entry: "de:value".into(), payload: p });
+            }
+        }
         if vt.de.is_some() && !v.is_finite_() {
             for (f, name) in [(Fmt::MsgPack, "de:MsgPack"), (Fmt::Ron, "de:Ron"), (Fmt::Json, "de:Json")] {
                 if let Ok(doc) = enc(f, v) {
@@ -168,6 +175,10 @@ pub fn check_float<I: FloatInner>(vt: &'static Vt<I>, ctx: &Ctx) -> DeclReport {
             "de:Ron" => vt.de.and_then(|f| f(Fmt::Ron, Pos::Top, &a.payload).ok()).and_then(|v| v.into_iter().next()),
             "de:MsgPack" => vt.de.and_then(|f| f(Fmt::MsgPack, Pos::Top, &a.payload).ok()).and_then(|v| v.into_iter().next()),
             "Arbitrary" => vt.arbitrary.and_then(|f| f(&a.payload).ok()),
+            "de:value" => {
+                let (bits, kind) = a.payload.split_at(a.payload.len().saturating_sub(1));
+                vt.de_value.and_then(|f| f(from_payload(bits), kind.first().copied().unwrap_or(0))).and_then(|r| r.ok())
+            }
             "Default" => vt.default.map(|f| f()),
             _ => None,
         })
